@@ -129,6 +129,13 @@ macro_rules! suite {
                 let _ = ServerSetup::<$name>::new_with_key(rng, kp);
             }
             let _ = <$ke as KeGroup>::random_sk(rng);
+            // the parameter structs' defaults (what "absent" means) are part of what the rules read (L-PARAMS)
+            let _ = (
+                ClientRegistrationFinishParameters::<$name>::default(),
+                ClientLoginFinishParameters::<$name>::default(),
+                ServerLoginStartParameters::default(),
+                Identifiers::default(),
+            );
         }
         pub fn $remote(b: &[u8], rng: &mut TapeRng) {
             if let Ok(kp) = KeyPair::<$ke, RemoteKey<$ke>>::from_private_key_slice(b) {
